@@ -111,5 +111,5 @@ def run(ctx):
         for rr in sub.rules:
             if rr.rid == 'R15.3':
                 for i in rr.insts:
-                    if 'payload-limit' in i.key or 'per-channel-copy' in i.key or 'FRAME_OVERHEAD' in i.key or 'frame_max-handover' in i.key or 'reassigned' in i.key:
+                    if True:  # the whole chain: the TuneOk put on the wire is the one the body splitter ends up with
                         r.insts.append(type(i)(r.rid, r._key(i.key.split(':', 1)[1]), i.ok, i.site, i.built, i.expected, i.why))
